@@ -321,3 +321,89 @@ theorem setBc_err (g : Grid) (b : BC) (faces : Option Faces) (cond : Option Cond
       simp only [key]
 
 end PorepyVerif.C39
+
+namespace PorepyVerif.C39
+
+/-! ### histories of operations -/
+
+theorem lastType_append (f : Nat) : ∀ (l1 l2 : List (Nat × Cond)) (t : Bool × Bool × Bool),
+    lastType f t (l1 ++ l2) = lastType f (lastType f t l1) l2 := by
+  intro l1
+  induction l1 with
+  | nil => intro l2 t; rfl
+  | cons q l1 ih => intro l2 t; simp only [List.cons_append, lastType_cons, ih]
+
+/-- a list of `dir` assignments makes exactly its faces Dirichlet -/
+theorem lastType_all_dir (f : Nat) (fs : List Nat) : ∀ t : Bool × Bool × Bool,
+    lastType f t (fs.map (fun x => (x, Cond.dir))) = if f ∈ fs then (false, true, false) else t := by
+  induction fs with
+  | nil => intro t; simp [lastType]
+  | cons a fs ih =>
+    intro t
+    simp only [List.map_cons, lastType_cons, ih, stepType, List.mem_cons]
+    by_cases e : a = f
+    · subst e; simp
+    · have e' : ¬ f = a := fun h => e h.symm
+      simp [e, e']
+
+theorem get_mapIdx (l : List Bool) (p : Nat → Bool → Bool) (f : Nat) :
+    get (l.mapIdx p) f = if f < l.length then p f (get l f) else false := by
+  unfold get
+  simp only [List.getD_eq_getElem?_getD, List.getElem?_mapIdx]
+  by_cases h : f < l.length
+  · simp [h]
+  · simp [h]
+
+theorem internalToDirichlet_spec (g : Grid) (b : BC) (hw : b.wf g.nf) :
+    (internalToDirichlet g b).wf g.nf ∧
+    ∀ f, (internalToDirichlet g b).at f = lastType f (b.at f) (executed g .internalToDirichlet) := by
+  obtain ⟨h1, h2, h3⟩ := hw
+  refine ⟨⟨by simp [internalToDirichlet, h1], by simp [internalToDirichlet, h2], by simp [internalToDirichlet, h3]⟩, fun f => ?_⟩
+  simp only [executed, lastType_all_dir, List.mem_filter, List.mem_range]
+  simp only [BC.at, internalToDirichlet, get_mapIdx, h1, h2, h3]
+  by_cases hf : f < g.nf
+  · by_cases hr : g.frac f = true
+    · simp [hf, hr]
+    · simp [hf, hr]
+  · have hg : ∀ l : List Bool, l.length = g.nf → get l f = false := by
+      intro l hl
+      unfold get
+      rw [List.getD_eq_getElem?_getD, List.getElem?_eq_none (by omega)]
+      rfl
+    simp [hf, hg _ h1, hg _ h2, hg _ h3]
+
+theorem setBc_spec (g : Grid) (b : BC) (hw : b.wf g.nf) (fa : Option Faces) (co : Option Conds) :
+    (setBc g b fa co).1.wf g.nf ∧
+    ∀ f, (setBc g b fa co).1.at f = lastType f (b.at f) (executed g (.setBc fa co)) := by
+  cases fa with
+  | none => exact ⟨hw, fun f => rfl⟩
+  | some fa =>
+    cases hp : prepare g fa co with
+    | error e => simp only [setBc, executed, hp]; exact ⟨hw, fun f => rfl⟩
+    | ok r =>
+      obtain ⟨pairs, w⟩ := r
+      simp only [setBc, executed, hp]
+      obtain ⟨h1, h2, _⟩ := applyAll_spec g.nf pairs b hw
+        (fun p hp' => isBf_lt g _ (prepare_ok g fa co pairs w hp p hp'))
+      exact ⟨h1, h2⟩
+
+/-- every face named by an executed pair is a boundary face -/
+theorem executed_on_boundary (g : Grid) (o : VOp) : ∀ p ∈ executed g o, g.isBf p.1 = true := by
+  intro p hp
+  cases o with
+  | internalToDirichlet =>
+    simp only [executed, List.mem_map, List.mem_filter, List.mem_range] at hp
+    obtain ⟨f, ⟨hf, hr⟩, rfl⟩ := hp
+    simp [Grid.isBf, hf, hr]
+  | setBc fa co =>
+    cases fa with
+    | none => simp [executed] at hp
+    | some fa =>
+      cases hq : prepare g fa co with
+      | error e => simp [executed, hq] at hp
+      | ok r =>
+        obtain ⟨pairs, w⟩ := r
+        simp only [executed, hq] at hp
+        exact prepare_ok g fa co pairs w hq p (goodPrefix_subset pairs p hp)
+
+end PorepyVerif.C39
